@@ -28,13 +28,18 @@ def run_case(case):
         return c
 
     async def scenario(loop, net):
+        ser = case.get("ser")
+        kw = {}
+        if ser == "json":
+            # a configured key serializer: what is hashed is the serialized key as it goes on the wire
+            kw["key_serializer"] = lambda k: json.dumps(k).encode()
         p = AIOKafkaProducer(bootstrap_servers=net.bootstrap(), linger_ms=0, request_timeout_ms=2000,
-                             metadata_max_age_ms=200)
+                             metadata_max_age_ms=200, **kw)
         await p.start()
         out = []
         for i, key in enumerate(case["keys"]):
             val = b"v%d" % i
-            fut = await p.send("t", val, key=None if key is None else bytes(key))
+            fut = await p.send("t", val, key=key if ser else (None if key is None else bytes(key)))
             try:
                 md = await asyncio.wait_for(fut, 5.0)
                 out.append(md.partition)
@@ -45,10 +50,13 @@ def run_case(case):
         await p.stop()
         # where each value actually sits
         where = {}
+        wire = {}
         for part, lg in net.topics["t"].items():
             for r in lg.records():
                 where[r["value"].decode()] = part
-        return {"reported": out, "landed": [where.get("v%d" % i) for i in range(len(case["keys"]))]}
+                wire[r["value"].decode()] = None if r["key"] is None else list(r["key"])
+        return {"reported": out, "landed": [where.get("v%d" % i) for i in range(len(case["keys"]))],
+                "wire_keys": [wire.get("v%d" % i) for i in range(len(case["keys"]))]}
     return run_sim(scenario, mk, max_vtime=600.0, seed=case["seed"])
 
 
